@@ -580,22 +580,23 @@ def run_suites(suites, fixture_registry, session, force_disabled=False, stop_on_
             break
         fixture_teardowns.append(teardown)
 
-    if not errors:
-        _run_suites(
-            suites, fixture_registry, scheduled_fixtures, session,
-            force_disabled=force_disabled, stop_on_failure=stop_on_failure, nb_threads=nb_threads
-        )
-
-    # teardown of 'pre_run' fixtures
-    for teardown in reversed(fixture_teardowns):
-        try:
-            teardown()
-        except UserError:
-            raise
-        except Exception:
-            errors.append("Got the following exception on fixture teardown (scope 'pre_run')%s" % (
-                serialize_current_exception(show_stacktrace=True)
-            ))
+    try:
+        if not errors:
+            _run_suites(
+                suites, fixture_registry, scheduled_fixtures, session,
+                force_disabled=force_disabled, stop_on_failure=stop_on_failure, nb_threads=nb_threads
+            )
+    finally:
+        # teardown of 'pre_run' fixtures (must also be done if the test session itself raises an exception)
+        for teardown in reversed(fixture_teardowns):
+            try:
+                teardown()
+            except UserError:
+                raise
+            except Exception:
+                errors.append("Got the following exception on fixture teardown (scope 'pre_run')%s" % (
+                    serialize_current_exception(show_stacktrace=True)
+                ))
 
     if errors:
         raise LemoncheesecakeException("\n".join(errors))
